@@ -2,6 +2,34 @@
 over the shards; budgets are case counts, never time."""
 
 PROPS = {
+    "C18": {
+        "pkg": "c18", "needs_gw": True, "level": "exploration",
+        "technique": "property-based differential testing (rapid): generated S3 programs issued to an endpoint directly and to a versitygw s3-proxy in front of an identical endpoint (real processes, http / https, with and without --disable-checksum); oracle = equality of the normalised responses step by step",
+        "level_text": ("Three real gateway processes per configuration: E (posix gateway addressed directly), E' (identical posix gateway, plain http or "
+                       "https with a self-signed certificate) and P = `versitygw s3 --endpoint E'` (with --ssl-skip-verify for https, with and without "
+                       "--disable-checksum). Same accounts on E, E' and P. Generated programs of 3-40 requests over five keys (space, '+', non-ASCII, "
+                       "nesting): put with payloads 0 B - 1 MiB and seven metadata sets (user metadata, content headers, Content-Encoding, Expires, "
+                       "x-amz-tagging, client checksums), get / head (plain, checksum mode, ranges incl. unsatisfiable and malformed, conditionals), "
+                       "GetObjectAttributes, copy (metadata / tagging directives), delete, batch delete, object tagging, ListObjects v1/v2 walked page by "
+                       "page with each side's own markers (prefix, delimiter, max-keys incl. 0, start-after, fetch-owner, encoding-type), ListBuckets, "
+                       "ListObjectVersions, whole multipart uploads (create, uploaded and copied parts up to 5 MiB, ListParts, ListMultipartUploads, "
+                       "complete / abort / complete with a wrong ETag) and stray multipart calls, bucket policy / ACL / ownership controls / versioning "
+                       "round trips, requests by non-root accounts, buckets created by a non-root account, missing keys / buckets, and restarts of the "
+                       "proxy process. Every request goes to E and to P; the two answers must agree in status, error code, every response header "
+                       "except Date / Last-Modified / Server / request ids, and body (XML compared canonically with LastModified / Initiated / "
+                       "CreationDate / error Message blanked, empty elements dropped, upload ids mapped to placeholders); a proxy process that dies is a "
+                       "violation. At the end listing, uploads, ACL and policy of both sides must agree."),
+        "level_note": ("Two open findings narrow the oracle: bucket tagging is not implemented by the proxy backend (operations excluded by construction, "
+                       "strict replay kept), and the Owner of listed objects is the backend account (difference tolerated only for exactly that element). "
+                       "An upload the endpoint refuses before reading the body may race with the proxy's sdk client (reset while writing => 500): such a "
+                       "refused upload is repeated up to 4 times on the proxy side and only a persistent 500 is reported. Exploration only; azure is out of scope."),
+        "rule": ("case = (tls, disable-checksum, bucket creator, ops). Non-trivial: a completed multipart upload, a paged listing, a put with metadata or "
+                 "a request by a non-root account; distinct by the full case."),
+        "assumptions": ["the endpoint behind the proxy is a versitygw posix gateway (no AWS S3 offline); self-signed certificate with --ssl-skip-verify stands for https"],
+        "jobs": [
+            {"run": "TestC18A", "quick": 320, "thorough": 8000, "shards_quick": 8, "shards_thorough": 16},
+        ],
+    },
     "C19": {
         "pkg": "c19", "needs_gw": True, "level": "exploration",
         "technique": "property-based testing (rapid): generated concurrent programs of succeeding and failing mutating requests x event-filter configurations against a real gateway with a webhook receiver; oracle = expected multiset of notification records",
